@@ -57,7 +57,7 @@ def run_(tier):
     mc = proto.model_check("ACV_protocol", "ACV protocol model (HistoryIndependent, HandlesOnlyGrowByCompile)")
     neg = proto.negative_control("LeakHandleState", ["HistoryIndependent", "HandlesOnlyGrowByCompile"])
     maxlen = 3 if tier == "quick" else 5
-    kinds = sorted(DOCS)
+    kinds = sorted(k for k in DOCS if k != "notJson")      # the long non-JSON text stands for the class
     if tier == "quick":
         kinds = ["fail1", "fail3", "ldPanic", "noNodes", "notJsonLong", "pass"]
     cfg = ("INIT HInit\nNEXT HNext\nINVARIANT Emit\nCONSTANTS\n  DocKinds = {%s}\n  ProfKinds = {\"flat\", \"nested\"}\n  MaxLen = %d\n"
